@@ -16,7 +16,8 @@ are lists with a head atom:
   (ins Z<k>…) (stages (Z<k>…)…)  compose chain: parameter types of stage 0, non-error results per stage
   (in Z<k>) (outs Z<k>…) fmap/join/traverse element and result types
   (args n…) (list n…) | (nillist)  argument payloads; (fail s k) failing stage and error number or (fail);
-  (errin k) | (errin)   error passed to join; (ok b) (err k) toerror
+  (errin k) | (errin)   error passed to join; (ok b) (err k) toerror; (seq b…) toerror: the same function value
+                        invoked once per entry with f reporting b (answer s:<log before>#<outcome>#<outcome>…)
   (kind <opname>)       for `build`: which wrapper the package contains
   (site 1|2)            which of two call sites of the same derive function (same types, other parameter
                         names; the instrumented functions of site 2 have other tags)
@@ -480,9 +481,15 @@ def runChain (s : DState) (fl : Flags) (name : String) (args : List SExp) : Opti
         | _ => none
       | _ => none
     if vs.length != ps.length then none else
-    let f : List Nat → List Nat × Bool := fun a => (results s (if site2 args then 6 else 0) rs a, okFlag)
-    let m := twice (showResult (ErrChain.toError e f vs))
-    let sp := twice (showResult (Spec.toErrorSpec e f vs))
+    let fOk (b : Bool) : List Nat → List Nat × Bool := fun a => (results s (if site2 args then 6 else 0) rs a, b)
+    let f := fOk okFlag
+    -- `(seq b…)`: one function value invoked once per entry, f reporting b in that call; the model has no
+    -- state: every call is answered on its own
+    let (m, sp) := match parseNats args "seq" with
+      | some bs =>
+        ("s:" ++ String.join (bs.map fun b => "#" ++ showResult (ErrChain.toError e (fOk (b != 0)) vs)),
+         "s:" ++ String.join (bs.map fun b => "#" ++ showResult (Spec.toErrorSpec e (fOk (b != 0)) vs)))
+      | none => (twice (showResult (ErrChain.toError e f vs)), twice (showResult (Spec.toErrorSpec e f vs)))
     match custom with
     | some (t, true) => some (answerErr fl.chain .toErrorArg t ok m sp)
     | _ => some (answer ok m sp)
